@@ -81,6 +81,7 @@ type SimNode struct {
 	Store     hg.Store
 	Trans     *Transport
 	Prox      *inmem.InmemProxy
+	Configured []string // public keys of the peer list the node was started with
 	Silent    bool // neither initiates nor answers
 	Down      bool // crashed / not yet started
 	Restarted bool // re-created from its store (pools were lost)
@@ -109,6 +110,8 @@ type Plan struct {
 	ForceOK    bool            // a hostile responder: the (mutated) response is returned without the responder's error
 	MutateReq  func(kind string, args interface{}) interface{}
 	MutateResp func(kind string, resp interface{}) interface{}
+	// Answer: a hostile responder that answers by itself (the real handler of the target is not run)
+	Answer func(kind string, args interface{}) (interface{}, bool)
 	// Hook is called at the lock-release points: phase "pre" (before the
 	// request reaches the target) and "post" (after the target answered).
 	Hook func(from, to int, kind, phase string)
@@ -219,6 +222,9 @@ func (c *Cluster) startNode(i int, currentPeers []*peers.Peer, bootstrap bool, f
 	if old := c.Nodes[i]; old != nil {
 		sn.Dir = old.Dir
 		sn.Submits = old.Submits
+	}
+	for _, p := range currentPeers {
+		sn.Configured = append(sn.Configured, p.PubKeyString())
 	}
 	sn.App.StepFn = func() int { return c.Step }
 	if len(c.Cfg.RefuseJoin) > 0 {
@@ -387,6 +393,11 @@ func (c *Cluster) deliver(from int, target string, kind string, args interface{}
 	}
 	if plan != nil && kind == "ff" && plan.FFFrom > 0 && toIdx != plan.FFFrom-1 {
 		return nil, fmt.Errorf("harness transport: ff request to %s dropped (serving peer fixed)", target)
+	}
+	if plan != nil && plan.Answer != nil {
+		if r, ok := plan.Answer(kind, args); ok {
+			return r, nil
+		}
 	}
 	if plan != nil && plan.DropReq[kind] {
 		return nil, fmt.Errorf("harness transport: %s request lost", kind)
